@@ -93,7 +93,7 @@ def main():
     exit_code = 0
     broken = (not proof['ok']) or bool(agg['mismatches']) or bool(agg['errors'])
     searched = None
-    if not new_hits and broken:
+    if not new_hits and broken and not os.environ.get('VERIF_NOSEARCH'):
         # 4b. SEARCH for a concrete failing input on the implementation
         print('[%s] proof/correspondence broken: searching the implementation for a failing input' % prop)
         searched = core.run_campaign(prop, 'thorough' if a.tier == 'quick' else 'thorough', seed + 1, 'search')
